@@ -10,5 +10,5 @@ python3 tools/gen_help.py
 mkdir -p work && (cd /repo && cargo build --offline --target-dir /verif/work/bin-target 2>&1 | tail -2)
 (cd lean && lake build ircmodel Irc 2>&1 | tail -3)
 # property modules (theorems); built here once so that the checks only re-check what changed
-(cd lean && for f in Irc/Props/C??.lean; do m=$(echo "$f" | sed 's/\.lean$//; s#/#.#g'); echo $m; done | xargs lake build 2>&1 | tail -3) || true
+(cd lean && for f in Irc/Props/*.lean Irc/InvProofs/*.lean; do m=$(echo "$f" | sed 's/\.lean$//; s#/#.#g'); echo $m; done | xargs lake build 2>&1 | tail -3) || true
 echo setup done
